@@ -7,8 +7,8 @@ from harness import c15_truncate, c15_err, c15_decomp
 
 PROP = 'C15'
 MODEL_MODULES = ['TenpyModel.Util.J', 'TenpyModel.C15.Truncate']
-PROPS_MODULES = ['TenpyModel.C15.Props', 'TenpyModel.C15.PropsMatrix']
-LEAN_MODULES = ['TenpyModel.C15.Props', 'TenpyModel.C15.PropsMatrix']
+PROPS_MODULES = ['TenpyModel.C15.Props', 'TenpyModel.C15.PropsMatrix', 'TenpyModel.C15.Props2']
+LEAN_MODULES = PROPS_MODULES
 LEVEL = 'proof'
 BUDGET = {'quick': 150, 'thorough': 1500}
 RULE = ('truncate: spectra of length 1-12 (0 and a few special streams: ulp-neighbours, one negative entry, values '
